@@ -1,6 +1,8 @@
 /* jwk.* operations: lib/jwk.c */
 #include "hx.h"
 #include <jose/jwk.h>
+#include <jose/openssl.h>
+#include <openssl/evp.h>
 
 static json_t *
 op_prm(json_t *args)
@@ -69,7 +71,21 @@ op_thp_buf(json_t *args)
     return res;
 }
 
+/* ossl.roundtrip {jwk}: JWK -> EVP_PKEY -> JWK through the public conversion functions */
+static json_t *
+op_ossl_roundtrip(json_t *args)
+{
+    EVP_PKEY *k = jose_openssl_jwk_to_EVP_PKEY(NULL, hx_arg(args, "jwk"));
+    json_t *back = NULL;
+    if (k) {
+        back = jose_openssl_jwk_from_EVP_PKEY(NULL, k);
+        EVP_PKEY_free(k);
+    }
+    return json_pack("{s:b,s:o}", "imported", k != NULL, "jwk", back ? back : json_null());
+}
+
 const op_t ops_jwk[] = {
+    { "ossl.roundtrip", op_ossl_roundtrip },
     { "jwk.prm", op_prm },
     { "jwk.pub", op_pub },
     { "jwk.eql", op_eql },
